@@ -69,6 +69,15 @@ MENU = {
     "stack0": (2, lambda x, y: np.stack([x, y], axis=0), lambda x, y: _xp().stack([x, y], axis=0)),
     "matmulT": (2, lambda x, y: x @ y.T, lambda x, y: _xp().matmul(x, y.T)),
 }
+# three-argument elementwise op (same array may be passed twice: parallel edges in the plan multigraph);
+# used by hand-written DAGs only, not by the closure enumeration
+def _fma_cubed(x, y, z):
+    from cubed.core.ops import elemwise
+    return elemwise(lambda a, b, c: a * b + c, x, y, z, dtype=x.dtype)
+
+
+MENU["fma3"] = (3, lambda x, y, z: x * y + z, _fma_cubed)
+HIDDEN = {"fma3"}
 FUSION_MENU = ["neg", "slice1", "sum0", "mean1", "T", "rechunk", "mapblk", "unstack0", "unstack1", "sub", "concat0", "stack0", "idxarr"]
 
 
@@ -256,9 +265,9 @@ def all_terms(tier):
     data = input_data(0)
     memo = {}
     inputs = list(INPUTS)
-    menu1 = list(MENU)
+    menu1 = [m for m in MENU if m not in HIDDEN]
     t1 = [t for t in level_terms(menu1, None, inputs, inputs) if _valid(t, data, memo)]
-    t2 = [t for t in level_terms(list(MENU), None, inputs + t1, t1) if _valid(t, data, memo)]
+    t2 = [t for t in level_terms(menu1, None, inputs + t1, t1) if _valid(t, data, memo)]
     return t1, t2, data, memo
 
 
